@@ -372,6 +372,42 @@ pub fn classify(e: &pocket_db::Error) -> String {
     }
 }
 
+/// Really close the LMDB environment of a store directory (after the Store was dropped).  heed
+/// keeps every environment open in a process-wide registry until `prepare_for_closing`; opening the
+/// path again hands out that same environment (or, with different options, returns it inside the
+/// BadOpenOptions error), which gives us a handle to close it with.
+pub fn close_env(dir: &Path) {
+    use pocket_db::heed::{EnvOpenOptions, Error as HeedError};
+    let lm = dir.join("lmdb");
+    if !lm.is_dir() {
+        return;
+    }
+    let r = unsafe { EnvOpenOptions::new().open(&lm) };
+    let env = match r {
+        Ok(env) => env,
+        Err(HeedError::BadOpenOptions { env, .. }) => env,
+        Err(_) => return,
+    };
+    env.prepare_for_closing().wait();
+}
+
+/// Copy the durable files of a store directory (what survives a kill of the process): the event
+/// map and the LMDB data file.  lock.mdb is not copied: LMDB re-initialises it whenever it obtains
+/// the exclusive lock, which is what happens after a real kill.
+pub fn image_dir(src: &Path, dst: &Path) -> std::io::Result<()> {
+    std::fs::create_dir_all(dst.join("lmdb"))?;
+    for name in ["event.map", "lmdb/data.mdb"] {
+        let s = src.join(name);
+        if s.exists() {
+            std::fs::copy(&s, dst.join(name))?;
+        }
+    }
+    if !src.join("lmdb").exists() {
+        let _ = std::fs::remove_dir(dst.join("lmdb"));
+    }
+    Ok(())
+}
+
 impl<'u> Driver<'u> {
     pub fn open(u: &'u Universe, dir: &Path, extra: bool) -> Result<Driver<'u>, String> {
         let names: Vec<&'static str> = if extra { EXTRA_TABLES.to_vec() } else { vec![] };
@@ -432,8 +468,28 @@ impl<'u> Driver<'u> {
         }
     }
 
+    /// cold = really close the LMDB environment in between (what a process restart does);
+    /// warm = drop the Store and open it again (heed hands out the still-open environment)
+    pub fn reopen_mode(&mut self, cold: bool) -> String {
+        self.store = None;
+        if cold {
+            close_env(&self.dir);
+        }
+        self.reopen_inner()
+    }
+
     pub fn reopen(&mut self) -> String {
-        self.store = None; // drop: closes the environment and unmaps
+        self.store = None; // drop: unmaps the event map
+        self.reopen_inner()
+    }
+
+    /// drop the store and close its environment
+    pub fn close(&mut self) {
+        self.store = None;
+        close_env(&self.dir);
+    }
+
+    fn reopen_inner(&mut self) -> String {
         let dir = self.dir.clone();
         let names = self.names();
         match catch_unwind(AssertUnwindSafe(|| Store::new(&dir, names))) {
